@@ -2,12 +2,12 @@ SPECIFICATION QSpec
 CONSTANTS
   Readers = {1, 2}
   KeySet = {1, 2}
-  Sizes = {1, 2, 3}
+  Sizes = {1, 2}
   MAX = 2
   PAR = 1
   NCALLS = 2
   FIXED = FALSE
-  ERRS = {FALSE, TRUE}
+  ERRS = {FALSE}
   TTL = TRUE
   CLEAR = TRUE
 INVARIANT QInv
